@@ -308,7 +308,7 @@ def run_job(job, prop, tier, seed, scratch, ev):
         rec.update(lines=total_lines, replayed_lines=kept)
         tot = {}
         with cf.ThreadPoolExecutor(max_workers=NCPU) as ex:
-            for s in ex.map(lambda sh: replay(sh, job, prop, job.get("replay_timeout", 1200)), shards):
+            for s in ex.map(lambda sh: replay(sh, job, prop, job.get("replay_timeout", 2400)), shards):
                 merge(tot, s)
         for sh in shards:
             os.remove(sh)
